@@ -101,6 +101,9 @@ structure Frame where
   /-- remaining program (`run`) / remaining nested program (send frames) -/
   ops : List Op := []
   boxFails : Bool := false
+  /-- ghost: ids of the sends that had already returned `Ok` when this send performed its first
+  step (`send.status`) -/
+  seenOk : List Nat := []
   deriving Repr, Inhabited
 
 inductive RKind where
@@ -113,6 +116,8 @@ structure Ret where
   id : Nat
   res : Res
   late : Bool
+  /-- ghost (sends): ids of the sends that had returned `Ok` before this one started -/
+  seenOk : List Nat := []
   deriving DecidableEq, Repr, Inhabited
 
 /-- Shared state (real + ghost). -/
@@ -181,9 +186,17 @@ def kindOf (f : Frame) : RKind :=
   | .bad => .bad
   | _ => .send
 
+/-- ids of the sends that returned `Ok`, in return order -/
+def okIds : List Ret → List Nat
+  | [] => []
+  | r :: l =>
+    (match r.kind, r.res with
+     | .send, .ok => [r.id]
+     | _, _ => []) ++ okIds l
+
 /-- The op of frame `f` returns `r`: log it and pop the frame. -/
 def finish (s : Shared) (f : Frame) (r : Res) (rest : List Frame) : Shared × List Frame :=
-  ({ s with rets := s.rets ++ [⟨kindOf f, f.id, r, f.late⟩] }, rest)
+  ({ s with rets := s.rets ++ [⟨kindOf f, f.id, r, f.late, f.seenOk⟩] }, rest)
 
 /-- Start `op` on top of `parent :: rest` (harness point `op.start`). -/
 def startOp (s : Shared) (op : Op) (parent : Frame) (rest : List Frame) : Shared × List Frame :=
@@ -209,7 +222,7 @@ def stepThread (s : Shared) (stack : List Frame) : Option (Shared × List Frame)
       | op :: ops => some (startOp s op { f with ops := ops } rest)
     | .sStatus =>
       -- `if self.get_status() >= Draining { return Err(SendErr(m)) }`
-      let f := { f with late := s.word.closed }
+      let f := { f with late := s.word.closed, seenOk := okIds s.rets }
       if s.status ≥ stDraining then some (finish s f .sendErr rest)
       else some (s, { f with pc := .aLoad } :: rest)
     | .aLoad =>
@@ -385,12 +398,29 @@ def Ret.isSend (r : Ret) : Bool :=
 def Ret.isOkSend (r : Ret) : Bool :=
   r.isSend && (match r.res with | .ok => true | _ => false)
 
+/-- position of `x` in `l` -/
+def indexOf? (l : List Nat) (x : Nat) : Option Nat :=
+  match l with
+  | [] => none
+  | y :: ys => if x == y then some 0 else (indexOf? ys x).map (· + 1)
+
+/-- `a` is handled before `b` — or `b` is not handled at all -/
+def orderedIn (a b : Nat) (l : List Nat) : Bool :=
+  match indexOf? l a, indexOf? l b with
+  | some x, some y => x < y
+  | none, some _ => false
+  | _, _ => true
+
 def Obs.violations (o : Obs) : List String :=
   -- C02 (a): handled at most once, only messages whose send returned Ok
   (if nodupNat o.handled then [] else ["handled-twice"]) ++
   (if o.handled.all (fun i => o.rets.any (fun r => r.isOkSend && r.id == i)) then [] else ["handled-without-ok"]) ++
   -- C02 (a): exactly once unless the actor exited for another reason
   (if o.otherExit || o.rets.all (fun r => !r.isOkSend || o.handled.contains r.id) then [] else ["ok-not-handled"]) ++
+  -- C02 (b): real-time order ⇒ handling order: a send that had returned Ok before another one
+  -- started is handled first
+  (if o.rets.all (fun r2 => !r2.isOkSend || r2.seenOk.all (fun m1 => orderedIn m1 r2.id o.handled)) then []
+    else ["order"]) ++
   -- C07 (1): nothing admitted after the close
   (if o.rets.all (fun r => !(r.isSend && r.late) || r.res == .sendErr) then [] else ["admitted-after-close"]) ++
   -- C07 (2)/(5): at quiescence no ticket is outstanding and closed ⇒ marker
